@@ -41,7 +41,7 @@ const MAX_TABLES: usize = 8; // production uses 128 sub-tables, the unit tests 8
 
 // recording oracle; arrays of 32 bytes (an 8-byte static triggers a Kani 0.68 artefact, DESIGN.md section 0 item 3)
 static mut CALLS: [u64; 4] = [0; 4]; // [insert calls, find calls, entries calls, max_entries calls]
-static mut ARGS: [u64; 4] = [0; 4]; // [table id, hash, (unused), (unused)]
+static mut ARGS: [u64; 4] = [0; 4]; // [table id, hash] of the last insert, [table id, hash] of the last find
 static mut ENTRY_IN: [Option<TranspositionEntry>; 2] = [None, None]; // [0] = entry passed to insert
 static mut ANSWER: [Option<TranspositionEntry>; 2] = [None, None]; // [0] = what the table's find answers
 static mut COUNTS_E: [u32; 8] = [0; 8]; // per-table answers of entries()
@@ -59,8 +59,8 @@ fn stub_table_insert(t: &mut TranspositionTable, hash: Hash, entry: Transpositio
 fn stub_table_find(t: &TranspositionTable, hash: Hash) -> Option<&TranspositionEntry> {
     unsafe {
         CALLS[1] += 1;
-        ARGS[0] = t.used_slots as u64;
-        ARGS[1] = hash;
+        ARGS[2] = t.used_slots as u64;
+        ARGS[3] = hash;
         (*std::ptr::addr_of!(ANSWER))[0].as_ref()
     }
 }
@@ -146,7 +146,9 @@ fn c15_access_insert_routes_by_key() {
     let e = any_entry();
     access.insert(h, e);
     unsafe {
-        assert!(CALLS[0] == 1 && CALLS[1] == 0, "exactly one sub-table insert, no other table operation");
+        assert!(CALLS[0] == 1, "exactly one sub-table insert");
+        // (a look-up during insert is not forbidden by the property, but it must stay inside the key's own sub-table)
+        assert!(CALLS[1] == 0 || ARGS[2] == (h % (n as u64)), "nothing is read from another sub-table");
         assert!(ARGS[0] == (h % (n as u64)), "the sub-table is hash mod table count");
         assert!(ARGS[1] == h, "the sub-table stores the entry under the full key");
         let got = (*std::ptr::addr_of!(ENTRY_IN))[0];
@@ -178,8 +180,8 @@ fn c15_access_find_routes_by_key() {
     let r = access.find(h);
     unsafe {
         assert!(CALLS[1] == 1 && CALLS[0] == 0, "exactly one sub-table lookup, nothing written");
-        assert!(ARGS[0] == (h % (n as u64)), "the sub-table is hash mod table count -- the one insert uses");
-        assert!(ARGS[1] == h, "the sub-table is asked for the full key");
+        assert!(ARGS[2] == (h % (n as u64)), "the sub-table is hash mod table count -- the one insert uses");
+        assert!(ARGS[3] == h, "the sub-table is asked for the full key");
     }
     match r {
         None => assert!(!hit),
@@ -263,7 +265,7 @@ fn c15_access_constructor_then_insert_and_find() {
     }
     let r = access.find(h);
     unsafe {
-        assert!(CALLS[1] == 1 && ARGS[0] == (h % (n as u64)) && ARGS[1] == h);
+        assert!(CALLS[1] == 1 && ARGS[2] == (h % (n as u64)) && ARGS[3] == h);
     }
     assert!(r.is_none()); // the stubbed table answers None unless the harness says otherwise
     kani::cover!(n == 3 && h == 3, "non power of two table count reachable");
